@@ -92,6 +92,12 @@ pub enum FileState {
     Missing,
     /// the OTHER kind of file of pair k (cert file holds a key or vice versa)
     Swapped(usize),
+    /// certificate file holding a chain: pair k's certificate followed by pair j's (as a key file: pair k's key)
+    Chain(usize, usize),
+    /// the same chain with the second certificate cut n bytes into its body
+    ChainCut(usize, usize, usize),
+    /// the same chain with a few characters inside the second certificate's body replaced by '!'
+    ChainGarbled(usize, usize),
 }
 
 #[derive(Clone, Debug)]
@@ -113,6 +119,34 @@ fn content(pairs: &[Pair], st: &FileState, is_cert: bool) -> Option<Vec<u8>> {
         FileState::Empty => Some(Vec::new()),
         FileState::Missing => None,
         FileState::Swapped(k) => Some(pick(*k, !is_cert)),
+        FileState::Chain(k, j) | FileState::ChainCut(k, j, _) | FileState::ChainGarbled(k, j) => {
+            if !is_cert {
+                return Some(pick(*k, false));
+            }
+            let mut f = pick(*k, true);
+            if !f.ends_with(b"\n") {
+                f.push(b'\n');
+            }
+            let mut second = pick(*j, true);
+            match st {
+                FileState::ChainCut(_, _, n) => {
+                    // strictly inside the base64 body: after the BEGIN line, before the END line
+                    let n = (*n).clamp(45, second.len().saturating_sub(45));
+                    second.truncate(n);
+                }
+                FileState::ChainGarbled(..) => {
+                    let mid = second.len() / 2;
+                    for b in second.iter_mut().skip(mid).take(5) {
+                        if *b != b'\n' {
+                            *b = b'!';
+                        }
+                    }
+                }
+                _ => {}
+            }
+            f.extend_from_slice(&second);
+            Some(f)
+        }
     }
 }
 
@@ -126,6 +160,13 @@ fn holds(pairs: &[Pair], bytes: &Option<Vec<u8>>, is_cert: bool) -> Option<usize
         let trimmed = full.trim_end();
         if text.starts_with(trimmed) && text.trim_end() == trimmed {
             return Some(k);
+        }
+        // a certificate file may hold a chain: the leaf decides, and every further certificate must be whole
+        if is_cert && text.starts_with(trimmed) {
+            let rest = text[trimmed.len()..].trim();
+            if pairs.iter().any(|q| q.cert_pem.trim() == rest) {
+                return Some(k);
+            }
         }
     }
     None
@@ -379,6 +420,18 @@ pub fn run(ctx: Ctx) -> Report {
                 seqs.push((vec![WriteCert(Full(target)), WriteKey(Full(target)), Reload, Reload], expiry));
             }
         }
+        // chains: a complete chain is as good as a single certificate; a chain whose second certificate is cut or
+        // garbled is a damaged file, however complete the leaf and the key are
+        let second_len = pairs[2].cert_pem.len();
+        for target in [1usize, 3] {
+            for expiry in [true, false] {
+                seqs.push((vec![WriteKey(Full(target)), WriteCert(Chain(target, 2)), Reload, WriteCert(Full(0)), WriteKey(Full(0)), Reload], expiry));
+                seqs.push((vec![WriteKey(Full(target)), WriteCert(ChainGarbled(target, 2)), Reload, WriteCert(Chain(target, 2)), Reload], expiry));
+                for cut in [45usize, 64, 65, 66, 130, second_len / 2, second_len - 100, second_len - 46, second_len - 45] {
+                    seqs.push((vec![WriteKey(Full(target)), WriteCert(ChainCut(target, 2, cut)), Reload, WriteCert(Chain(target, 2)), Reload], expiry));
+                }
+            }
+        }
         // each file replaced alone, garbage, empty, missing, swapped
         for fs in [Garbage, Empty, Missing, Swapped(0), Swapped(1), Full(1), Full(3)] {
             seqs.push((vec![WriteCert(fs.clone()), Reload, WriteCert(Full(0)), Reload], true));
@@ -456,7 +509,7 @@ pub fn run(ctx: Ctx) -> Report {
             }
             run::case_begin(&format!("C18 sequence {i}"));
             // the hand-written update sequences and every third other one also go through a real listen loop
-            let r = rt.block_on(run_sequence(&pairs, steps, *expiry, &format!("{shard}-{i}"), i < 39 || i % 3 == 0));
+            let r = rt.block_on(run_sequence(&pairs, steps, *expiry, &format!("{shard}-{i}"), i < 83 || i % 3 == 0));
             rep.case(Some(hash_str(&describe(steps, *expiry).to_string())));
             rep.add("reloads_succeeded", r.reloads_ok);
             rep.add("reloads_failed_as_they_must", r.reloads_err);
@@ -544,7 +597,7 @@ async fn stress(pairs: &[Pair]) -> (Vec<String>, u64, u64) {
 pub fn meta() -> CheckMeta {
     CheckMeta {
         level: "fault_enumeration",
-        rule: "on-disk fault states of the certificate/key files driven against the real CertReloader (rcgen pairs A, B, C and an expired E): two-file updates with a reload between every pair of writes in both orders, each file replaced alone by another pair's file / garbage / empty / missing / the other kind of file, truncation prefixes of the new certificate and of the new key (quick: 64+32 evenly spaced cuts plus both sides of every line boundary and the last bytes; thorough: every byte) with a reload at each, random 20-200 step sequences, check_expiry on/off; thorough adds a thread rewriting both files while reloads run. After EVERY step an in-memory TLS handshake against get_acceptor() records the presented leaf; oracle: reload() is Ok iff the files hold a complete, matching (and, with check_expiry, unexpired) pair as known by construction; after Err the presented leaf, cert info, last-reload instant and reload count are unchanged; after Ok the leaf is the pair on disk; a TLS connection established at the start answers a ping after every step. distinct_nontrivial = distinct step sequences. For the hand-written update sequences and every third other one a real Server::new_with_reloadable_tls(..).listen() loop runs on the same reloader: after every step the next connection it accepts (loopback TCP + TLS) must present the active pair. A returning client (one connector with its TLS session cache kept for the whole sequence, one byte exchanged per connection so that session tickets are taken in) also handshakes after every step: the connection it ends up on must be bound to the active pair; resuming a session that was established under a replaced pair is a violation (most handshakes between reloads do resume, which is fine).".into(),
+        rule: "on-disk fault states of the certificate/key files driven against the real CertReloader (rcgen pairs A, B, C and an expired E): two-file updates with a reload between every pair of writes in both orders, each file replaced alone by another pair's file / garbage / empty / missing / the other kind of file, truncation prefixes of the new certificate and of the new key (quick: 64+32 evenly spaced cuts plus both sides of every line boundary and the last bytes; thorough: every byte) with a reload at each, random 20-200 step sequences, check_expiry on/off; thorough adds a thread rewriting both files while reloads run. After EVERY step an in-memory TLS handshake against get_acceptor() records the presented leaf; oracle: reload() is Ok iff the files hold a complete, matching (and, with check_expiry, unexpired) pair as known by construction; after Err the presented leaf, cert info, last-reload instant and reload count are unchanged; after Ok the leaf is the pair on disk; a TLS connection established at the start answers a ping after every step. distinct_nontrivial = distinct step sequences. For the hand-written update sequences and every third other one a real Server::new_with_reloadable_tls(..).listen() loop runs on the same reloader: after every step the next connection it accepts (loopback TCP + TLS) must present the active pair. A returning client (one connector with its TLS session cache kept for the whole sequence, one byte exchanged per connection so that session tickets are taken in) also handshakes after every step: the connection it ends up on must be bound to the active pair; resuming a session that was established under a replaced pair is a violation (most handshakes between reloads do resume, which is fine). Certificate files holding a chain (leaf + a second certificate): a complete chain reloads like a single certificate; a chain whose second certificate is cut inside its body (9 positions) or garbled must be refused although leaf and key are complete and matching.".into(),
         assumptions: vec!["a file counts as complete when the whole PEM block is present (a missing final newline does not matter)".into(), "rcgen/rustls generate and verify the pairs".into()],
         floors: vec![("reloads_succeeded", 50), ("reloads_failed_as_they_must", 150), ("handshakes_inspected", 500), ("listener_handshakes_inspected", 300), ("returning_client_handshakes_inspected", 1000)],
         exhaustive: false,
